@@ -57,27 +57,29 @@ type Sim struct {
 	nAsk  int
 	nNode int
 
-	violations   []Violation
-	probes       map[string]int
-	faults       map[string]int
-	simStart     time.Time
-	drained      bool
-	stateSet     map[uint64]bool
-	notes        []string
-	sortChecks   int
-	restarts     int
-	confirmDelay map[string]int
-	lateConfirms []Op
-	everBound    int
-	steps        int
-	quiescents   int
-	reloadsOK    int
-	reloadsRej   int
-	cache        *stepCache
-	graveyard    map[string]*QSpec
-	gang         map[string]*gangWatch
-	groupLeak    map[string]Res
-	lastReload   reloadResult
+	violations    []Violation
+	probes        map[string]int
+	faults        map[string]int
+	simStart      time.Time
+	drained       bool
+	stateSet      map[uint64]bool
+	notes         []string
+	sortChecks    int
+	restarts      int
+	confirmDelay  map[string]int
+	lateConfirms  []Op
+	everBound     int
+	steps         int
+	quiescents    int
+	reloadsOK     int
+	reloadsRej    int
+	cache         *stepCache
+	graveyard     map[string]*QSpec
+	gang          map[string]*gangWatch
+	groupLeak     map[string]Res
+	mrng          *Rng
+	lastMalformed malformedCase
+	lastReload    reloadResult
 }
 
 func (s *Sim) probe(name string) { s.probes[name]++ }
@@ -264,7 +266,7 @@ func (s *Sim) exec(op Op) {
 		a := op.App
 		if ex := sh.Apps[a.ID]; ex == nil || ex.Status == "removed" || ex.Status == "rejected" {
 			m := &MApp{ID: a.ID, Queue: a.Queue, User: a.User, Groups: a.Groups, Tags: a.Tags, Status: "submitted", SubmitStep: s.step,
-				Gang: a.GangStyle != "", GangStyle: a.GangStyle, TimeoutMs: a.TimeoutMs, TaskGroups: map[string]int{}, UgiNil: a.NilUgi}
+				Gang: a.GangStyle != "", GangStyle: a.GangStyle, TimeoutMs: a.TimeoutMs, TaskGroups: map[string]int{}, UgiNil: a.NilUgi, SubmitAtMs: sh.nowMs()}
 			for _, tg := range a.TaskGroups {
 				m.TaskGroups[tg.Name] = tg.Count
 			}
@@ -416,6 +418,19 @@ func (s *Sim) doStep(op Op) {
 	switch op.Kind {
 	case "advance":
 		s.c.advanceClock(time.Duration(op.Ms)*time.Millisecond, time.Duration(op.Quantum)*time.Millisecond)
+	case "timed":
+		// the sub-operations are carried out by a goroutine of their own when the fake clock reaches now+Ms:
+		// at the very instant at which a timer of the core may fire; the conductor decides who goes first
+		d := time.Duration(op.Ms) * time.Millisecond
+		subs := op.Sub
+		s.c.spawn(func() {
+			time.Sleep(d)
+			s.c.yield("timed")
+			for _, sub := range subs {
+				s.exec(sub)
+			}
+		}, false)
+		s.c.settle()
 	case "batch":
 		for i := range op.Sub {
 			sub := op.Sub[i]
